@@ -27,6 +27,7 @@ static int GSOCKS[MAXG]; /* sockets per group */
 static int GPREF[MAXG]; /* preference per input position */
 static int SPARE_PREF[2]; /* preferences of the two groups offered to rtr_mgr_add_group */
 static int NSOCK_TOTAL;
+static int DYN_CAP = 2; /* add/remove-group events per history */
 static const struct seqx_cfg *CFG;
 
 static void tr_noop_close(void *s)
@@ -321,8 +322,8 @@ static bool sys_enabled(void *p, int op)
 		       (so->state == RTR_CONNECTING || so->state == RTR_RESET);
 	}
 	if (op < op_rm0())
-		return s->n_added + s->n_removed < 2 && !s->added[op - op_add0()];
-	return s->n_added + s->n_removed < 2;
+		return s->n_added + s->n_removed < DYN_CAP && !s->added[op - op_add0()];
+	return s->n_added + s->n_removed < DYN_CAP;
 }
 
 static void report(const struct seqx_hist *h, const char *key, const char *what)
@@ -633,6 +634,7 @@ static void worker(void)
 	/* spare groups: one more preferred than everything, one equal to an existing preference (duplicate) or in between */
 	SPARE_PREF[0] = 0;
 	SPARE_PREF[1] = v_flag("spare-dup") ? GPREF[0] : 15;
+	DYN_CAP = (int)v_argl("dyn", 2);
 	NSOCK_OPS = MAXS + 2;
 	NALL_PREFS = 0;
 	for (int g = 0; g < NG; g++)
